@@ -451,8 +451,8 @@ def _reject_structure(c, msg):
         mt = re.search(r"in tour '([^']*)'", msg)
         for t in sol['tours']:
             if mt and t['vehicleId'] == mt.group(1) and any(_is_job(a) for a in t['stops'][0]['activities']):
-                return '/job-at-departure-stop'
-        return ''
+                return ['/job-at-departure-stop']
+        return ['']
     if msg.startswith('cannot match activities to jobs'):
         cats = set()
         for item in msg.split(': ', 1)[1].split(', '):
@@ -467,12 +467,16 @@ def _reject_structure(c, msg):
                 cats.add('multi-job-without-unique-tags')
                 continue
             places = [pl for _, t in tasks for pl in t['places'] if tag == '<no tag>' or pl.get('tag') == tag]
-            if any(len(pl.get('times') or []) >= 2 for pl in places):
+            same_loc = any(len({pl['location']['index'] for pl in t['places']}) < len(t['places']) for _, t in tasks
+                           if any(tag == '<no tag>' or pl.get('tag') == tag for pl in t['places']))
+            if same_loc:
+                cats.add('places-at-same-location')
+            elif any(len(pl.get('times') or []) >= 2 for pl in places):
                 cats.add('multi-window-place')
             else:
                 cats.add('other')
-        return '/' + '+'.join(sorted(cats))
-    return ''
+        return ['/' + x for x in sorted(cats)]
+    return ['']
 
 
 def _verdict(impl):
@@ -503,8 +507,9 @@ def oracle_model(c, impl, model):
         if v == 'panic':
             return [{'class': 'checker-panics-on-valid', 'what': 'checker panicked on a valid solution: %s' % str(impl)[:300]}]
         errs = impl.get('errors') or [impl.get('error')]
-        return [{'class': 'checker-rejects-valid:' + _prefix(e) + _reject_structure(c, str(e)),
-                 'what': 'valid_b = [] (evaluated in Coq) but the checker reports %s' % json.dumps(e)[:600]} for e in errs]
+        return [{'class': 'checker-rejects-valid:' + _prefix(e) + suf,
+                 'what': 'valid_b = [] (evaluated in Coq) but the checker reports %s' % json.dumps(e)[:600]}
+                for e in errs for suf in _reject_structure(c, str(e))]
     cls = mut_class(m, base_of(c)[1])
     if v == 'reject' or v == 'unreadable':
         return []
